@@ -57,6 +57,9 @@ type Spec struct {
 	// NeedOpts: every file gets a destination with a wrong check digit and carries
 	// ValidateOpts{BypassDestinationValidation}: it is valid only under the options it carries.
 	NeedOpts bool `json:"need_opts,omitempty"`
+	// ShortTraces: trace numbers are replaced by their sequence part without leading zeros ("1", "27"), valid only
+	// under CustomTraceNumbers + BypassOriginValidation, which the files then carry.
+	ShortTraces bool `json:"short_traces,omitempty"`
 }
 
 // Files builds the files in the given order (a permutation of 0..n-1; nil = identity).
@@ -94,10 +97,66 @@ func (s Spec) Files(order []int) ([]*ach.File, error) {
 				}
 			}
 		}
+		if s.ShortTraces {
+			shortTraces(f)
+		}
 		made[k] = f
 		out = append(out, f)
 	}
 	return out, nil
+}
+
+// shortTraces rewrites every standard entry's trace number to its sequence part without leading zeros and lets the
+// file carry the options under which that is valid; undone if the file does not validate then.
+func shortTraces(f *ach.File) {
+	type sv struct {
+		e *ach.EntryDetail
+		t string
+	}
+	var old []sv
+	for _, b := range f.Batches {
+		if b.GetHeader().StandardEntryClassCode == ach.ADV {
+			return
+		}
+		for _, e := range b.GetEntries() {
+			if len(e.Addenda05) > 0 || len(e.TraceNumber) != 15 {
+				return // addenda sequence numbers are tied to the trace number: leave such files alone
+			}
+		}
+	}
+	if len(f.IATBatches) > 0 {
+		return
+	}
+	prevOpts := f.GetValidation()
+	for _, b := range f.Batches {
+		for _, e := range b.GetEntries() {
+			old = append(old, sv{e, e.TraceNumber})
+			t := strings.TrimLeft(e.TraceNumber[8:], "0")
+			if t == "" {
+				t = "0"
+			}
+			e.TraceNumber = t
+		}
+	}
+	opts := &ach.ValidateOpts{CustomTraceNumbers: true, BypassOriginValidation: true}
+	if prevOpts != nil {
+		o := *prevOpts
+		o.CustomTraceNumbers, o.BypassOriginValidation = true, true
+		opts = &o
+	}
+	f.SetValidation(opts)
+	for _, b := range f.Batches {
+		b.SetValidation(opts) // what the Reader does for a file read under these options
+	}
+	if f.Validate() != nil {
+		for _, x := range old {
+			x.e.TraceNumber = x.t
+		}
+		f.SetValidation(prevOpts)
+		for _, b := range f.Batches {
+			b.SetValidation(prevOpts)
+		}
+	}
 }
 
 func (s Spec) reroute(i int) int {
@@ -287,6 +346,7 @@ func DrawSpec(r *gen.Rand, maxFiles int) Spec {
 	}
 	s.SamePointer = n >= 2 && r.Chance(1, 10)
 	s.NeedOpts = r.Chance(1, 6)
+	s.ShortTraces = r.Chance(1, 6)
 	return s
 }
 
